@@ -224,6 +224,11 @@ theorem find_clusters (label : String) (s : Source) :
       some (labelled label "spikes.clusters") := by
   simp (disch := decide) [findPath, exportDir, List.find?_cons, gm_lab_false, gm_lab_true]
 
+/-- the export directory holds no KiloSort-named cluster file, so the two-file refusal does not fire -/
+theorem find_ks_clusters (label : String) (s : Source) :
+    findPath (exportDir label s) ["spike_clusters.npy"] = none := by
+  simp (disch := decide) [findPath, exportDir, List.find?_cons, gm_lab_false]
+
 theorem lookup_clusters (label : String) (s : Source) :
     (exportDir label s).lookup (labelled label "spikes.clusters") = some (vec s.clusters) := by
   simp (disch := decide) [exportDir, List.lookup_cons, labelled_beq_labelled]
@@ -272,7 +277,7 @@ theorem reload_eq_source (inv : Arr → Arr) (label : String) (s : Source) (h : 
   have e10 : atleast 2 (⟨[s.channelMap.length, 2], s.positions.map Cell.num⟩ : Arr) =
       ⟨[s.channelMap.length, 2], s.positions.map Cell.num⟩ := rfl
   simp only [lookup_spike_times, read_times, read_samples, read_amps, read_templates, find_clusters,
-    lookup_clusters, read_channel_map, read_positions, scrub_vec, scrub_num, pure_bind, e1, e2, e3,
+    find_ks_clusters, Option.isSome_none, Bool.false_and, lookup_clusters, read_channel_map, read_positions, scrub_vec, scrub_num, pure_bind, e1, e2, e3,
     e4, e5, e6, e7, e8, e9, e10, Bool.not_true, Bool.false_eq_true, if_false, Option.map_some]
   exact ⟨_, _, rfl, rfl, rfl, rfl, rfl, rfl, rfl, rfl⟩
 
@@ -364,7 +369,7 @@ theorem reload_templates (inv : Arr → Arr) (label : String) (s : Source) (h : 
   have e6 : squeeze (vec s.channelMap) = vec s.channelMap := squeeze_vec _ (by omega)
   have e8 : monotone (vec s.times).data = true := h8
   simp only [lookup_spike_times, read_times, read_samples, read_amps, read_templates, find_clusters,
-    lookup_clusters, read_channel_map, read_positions, read_waveforms, read_waveform_channels,
+    find_ks_clusters, Option.isSome_none, Bool.false_and, lookup_clusters, read_channel_map, read_positions, read_waveforms, read_waveform_channels,
     read_wm, read_wmi, scrub_vec, scrub_num, pure_bind, e1, e2, e3,
     e4, e5, e6, e8, Bool.not_true, Bool.false_eq_true, if_false, Option.map_some, Option.map_none]
   exact ⟨_, _, rfl, rfl, rfl⟩
